@@ -567,3 +567,16 @@ Proof.
   { rewrite nth_error_nth' with (d := 0%nat) by (rewrite seq_length; auto). rewrite seq_nth by auto. reflexivity. }
   rewrite E, (file_weights_spec ncol lastcol i wi H). reflexivity.
 Qed.
+
+(* ---------- the labelled / unlabelled rule ---------- *)
+Lemma labelled_rule : forall dots, file_is_labelled dots = true <-> forall b, In b dots -> b = false.
+Proof.
+  intro dots. unfold file_is_labelled. rewrite negb_true_iff. split.
+  - intros H b Hb. destruct b; auto. exfalso.
+    assert (existsb (fun b => b) dots = true) by (apply existsb_exists; exists true; auto). congruence.
+  - intro H. apply not_true_is_false. intro E. apply existsb_exists in E. destruct E as (b & Hb & Hbt). rewrite (H b Hb) in Hbt. discriminate.
+Qed.
+Lemma labelled_rule_ignores_line_order : forall dots dots', (forall b, In b dots <-> In b dots') -> file_is_labelled dots = file_is_labelled dots'.
+Proof.
+  intros dots dots' H. apply eq_true_iff_eq. rewrite !labelled_rule. split; intros G b Hb; apply G; apply H; auto.
+Qed.
